@@ -126,6 +126,14 @@ def corpus():
             out.append(case_dict(kind, tr, False, 2, "c1:g p1 c2:g i2:t p1 X X p1 c3:g".split()))
         out.append(case_dict("pool", tr, False, 2, "c1:g c2:g c3:g p3 i1:t i2:t X".split()))
         out.append(case_dict("pool", tr, True, 3, "c1:g c2:g i2:ht c3:g i3:t a3 p1 X".split()))
+        # no thread / child process can be started for a new client (spawn() / os.fork() fail once, twice in a row): it is
+        # turned away, nothing of it remains, the others go on, the next one is served
+        for kind in ("threaded", "forking"):
+            out.append(case_dict(kind, tr, tr == "unix", 2, "c1:g p1 f2 p1 c3:g p3 f4 f5 p3 p1 g1 c6:g p6 X".split()))
+        # the server process holds about a thousand descriptors: its clients' sockets get numbers beyond 1024
+        for kind in KINDS:
+            if tr == "tcp":
+                out.append(case_dict(kind, tr, False, 2, "c1:g p1 c2:g p2 p1 a1 c3:g p3 g2 X".split(), opts=["hifd"]))
         # a service whose on_disconnect RAISES: every client is still closed by close(), every hook still runs once
         for kind in KINDS:
             out.append(case_dict(kind, tr, False, 2, "c1:g p1 c2:g p2 c3:g a1 X X".split(), opts=["rh"]))
@@ -373,7 +381,7 @@ def oracle_case(case, known=(), ceiling=servers.CEILING):
         pending_close = False
         for i, tok in enumerate(case["ops"]):
             t = tok[0]
-            if t not in "cpgaXkzmhi":
+            if t not in "cpgaXkzmhif":
                 continue           # not an operation of this property
             obs = sess.do(tok)
             where = "after op %d (%s): " % (i, tok)
@@ -459,7 +467,12 @@ def oracle_case(case, known=(), ceiling=servers.CEILING):
                 continue
             if t == "h":
                 in_hook.discard(int(tok[1:]))
-            if (t in "gazh" and not in_hook) or (t == "c" and tok[-2:] in (":b", ":r") and not in_hook):
+            if t == "f" and obs == "ok":
+                cl = sess.clients.get(int(tok[1:]))
+                if cl is not None and not W(cl.sees_eof):
+                    return (where + "client %s, for which no thread / child process could be started, was not turned away "
+                            "(no end-of-stream)" % tok[1:]), "C17:%s:unservable-client-kept" % kind
+            if (t in "gazhf" and not in_hook) or (t == "c" and tok[-2:] in (":b", ":r") and not in_hook):
                 # a client has left (or was rejected): within the ceiling nothing refers to it any more
                 k = int(tok[1:].split(":")[0])
                 cl = sess.clients.get(k)
